@@ -30,7 +30,7 @@ type Case struct {
 func compare(b []byte, want smfref.File) string {
 	var s *smf.SMF
 	var err error
-	if p := ev.TryTimeout(ev.Watchdog, func() { s, err = smf.ReadFrom(bytes.NewReader(b)) }); p != "" {
+	if p := ev.TryTimeout(ev.Watchdog, func() { s, err = smf.ReadFrom(bytes.NewReader(b), adapt.ReadOpts(b)...) }); p != "" {
 		return "smf.ReadFrom: " + p
 	}
 	if err != nil {
